@@ -500,6 +500,24 @@ def c01_10(ctx):
         ctx.fail(c, c.node, 'derived values are not computed on the running result with key = <name of the derived value> as a default parameter')
 
 
+def check_dict_concat(ctx):
+    """records -> columns: the transposition every table built from rows goes through (shared with C06.8)"""
+    r = ctx.repo
+    d = r.fn('_dictable:dict_concat')
+    expect_guards(ctx, d, [('len(dicts) == 0', 'return {}', 'no record'), ('len(dicts) == 1', 'return {key: [value] for key, value in dicts[0].items()}', 'one record'),
+                           ('len(possible_keys) == 1', 'pairs = [sorted(d.items()) for d in dicts]', 'all records share their keys')])
+    ctx.count(1)
+    defs = {U(s.targets[0]): N(s.value) for s in ast.walk(d.node) if isinstance(s, ast.Assign)}
+    want = {'dicts': 'as_list(dicts)', 'possible_keys': 'list(set([tuple(sorted(d.keys())) for d in dicts]))', 'keys': None, 'values': 'zip(*[[value for _, value in row] for row in pairs])',
+            'res': 'dict(zip(keys, map(list, values)))'}
+    for k, w in want.items():
+        if w is not None and defs.get(k) != w:
+            ctx.fail(d, d.node, 'dict_concat: `%s = %s`, expected `%s`' % (k, defs.get(k), w), stmt='dict_concat %s' % k)
+    ks = [N(s.value) for s in body_nodes(d.node) if isinstance(s, ast.Assign) and U(s.targets[0]) == 'keys']
+    if ks != ['possible_keys[0]', NS('reduce(lambda res, keys: res | set(keys), possible_keys, set())')]:
+        ctx.fail(d, d.node, 'dict_concat keys are %s' % ks)
+
+
 @obligation('C01.11', 'TABLES (dispatch / guard tables, truth-table equivalence)', 'dictable.__getitem__, get, concat, __add__, __setitem__, __init__; dict_concat; lens',
             'row access, slicing, masking, integer lists, projection and concatenation dispatch on the kind of their argument: each kind must reach its own action (tests compared by truth table, actions by their first statement)',
             axioms=('A1',))
@@ -544,19 +562,7 @@ def c01_11(ctx):
         ctx.fail(c, c.node, 'the operands are not normalised as a list of tables (records converted with cls(other)): %s' % oth)
     a = r.fn('_dictable:dictable.__add__')
     expect_guards(ctx, a, [('other is None or (is_num(other) and other == 0)', 'return self', 'sum() starts from 0')], where=a.body)
-    d = r.fn('_dictable:dict_concat')
-    expect_guards(ctx, d, [('len(dicts) == 0', 'return {}', 'no record'), ('len(dicts) == 1', 'return {key: [value] for key, value in dicts[0].items()}', 'one record'),
-                           ('len(possible_keys) == 1', 'pairs = [sorted(d.items()) for d in dicts]', 'all records share their keys')])
-    ctx.count(1)
-    defs = {U(s.targets[0]): N(s.value) for s in ast.walk(d.node) if isinstance(s, ast.Assign)}
-    want = {'dicts': 'as_list(dicts)', 'possible_keys': 'list(set([tuple(sorted(d.keys())) for d in dicts]))', 'keys': None, 'values': 'zip(*[[value for _, value in row] for row in pairs])',
-            'res': 'dict(zip(keys, map(list, values)))'}
-    for k, w in want.items():
-        if w is not None and defs.get(k) != w:
-            ctx.fail(d, d.node, 'dict_concat: `%s = %s`, expected `%s`' % (k, defs.get(k), w), stmt='dict_concat %s' % k)
-    ks = [N(s.value) for s in body_nodes(d.node) if isinstance(s, ast.Assign) and U(s.targets[0]) == 'keys']
-    if ks != ['possible_keys[0]', NS('reduce(lambda res, keys: res | set(keys), possible_keys, set())')]:
-        ctx.fail(d, d.node, 'dict_concat keys are %s' % ks)
+    check_dict_concat(ctx)
     s_ = r.fn('_dictable:dictable.__setitem__')
     ctx.count(1, s_.where())
     if not any(isinstance(x, ast.Assign) and U(x.targets[0]) == s_.params[2] and N(x.value) == '_value(%s)' % s_.params[2] for x in s_.body):
@@ -589,3 +595,44 @@ def c01_11(ctx):
     rr = returns_of(v.node)
     if not rr or N(rr[-1].value) != NS('list(value) if isinstance(value, tuple) else as_list(value)'):
         ctx.fail(v, v.node, '_value does not turn tuples into lists and scalars into one-element lists')
+
+
+@obligation('C01.12', 'PATH (symbolic summary) + TYPESTATE', '_dictattr:dictattr.relabel / rename',
+            'renaming is ONE simultaneous substitution on the list-of-records model (a->b, b->a swaps two columns; a->b with b present keeps the renamed one last): the result is rebuilt in one pass over self.items() with every key mapped through the relabel table (keys.get(k, k)); moving keys one after the other on a copy lets an earlier move clobber a column that is still to be moved',
+            axioms=('A1',))
+def c01_12(ctx):
+    f = ctx.repo.fn('_dictattr:dictattr.relabel')
+    ctx.count(1, f.where())
+    loops = [n for n in body_nodes(f.node) if isinstance(n, (ast.For, ast.While))]
+    for lp in loops:
+        moves = [c for c in ast.walk(lp) if (isinstance(c, ast.Call) and isinstance(c.func, ast.Attribute) and c.func.attr in ('pop', '__delitem__', '__setitem__'))
+                 or isinstance(c, ast.Delete) or (isinstance(c, ast.Assign) and isinstance(c.targets[0], ast.Subscript))]
+        if moves:
+            ctx.fail(f, lp, 'columns are moved one after the other (`%s`): a rename whose new name is another column still to be renamed (a swap, a rotation) overwrites that column first' % U(moves[0])[:80],
+                     witness="dictattr(a=1, b=2).relabel(a='b', b='a') must be {'b': 1, 'a': 2}")
+            return
+    sp = [p for p in sym_paths(f) if p.term == 'return']
+    ctx.need(sp, 'relabel has no returning path')
+    for p in sp:
+        ctx.count(1)
+        v = p.value
+        ok = isinstance(v, ast.Call) and N(v.func) == 'type(self)' and not v.args and len(v.keywords) == 1 and v.keywords[0].arg is None and isinstance(v.keywords[0].value, ast.DictComp)
+        if ok:
+            dc = v.keywords[0].value
+            g = dc.generators[0]
+            ok = len(dc.generators) == 1 and not g.ifs and N(g.iter) == 'self.items()' and isinstance(g.target, ast.Tuple) and len(g.target.elts) == 2
+            if ok:
+                k, val = U(g.target.elts[0]), U(g.target.elts[1])
+                key = dc.key
+                ok = N(dc.value) == val and isinstance(key, ast.Call) and isinstance(key.func, ast.Attribute) and key.func.attr == 'get' and [U(a) for a in key.args] == [k, k] \
+                    and isinstance(key.func.value, ast.Call) and call_name(key.func.value) == 'relabel'
+                if ok:
+                    tab = key.func.value
+                    ok = N(tab) == NS('relabel(list(self.keys()), *args, **relabels)')
+        if not ok:
+            ctx.fail(f, p.node, 'relabel returns `%s`; expected type(self)(**{table.get(k, k): v for k, v in self.items()}) with table = relabel(list(self.keys()), *args, **relabels)' % (p.text() or '')[:160])
+    g = ctx.repo.fn('_dictattr:dictattr.rename')
+    ctx.count(1, g.where())
+    rp = [p for p in sym_paths(g) if p.term == 'return']
+    if not rp or any(p.text() != NS('self.relabel(*args, **relabels)') for p in rp):
+        ctx.fail(g, g.node, 'rename is no longer relabel')
